@@ -149,6 +149,18 @@ def md5(F, R):
                 R.require(ok, fn, "entry-cluster", "opened directory's cluster must be the looked-up entry's cluster, got %s" % tstr(cl), fn.loc(b))
 
 
+    # "opening a sub-directory succeeds exactly for names that the listing contains": once the entry is found and is a
+    # directory, nothing but a full handle table stands between it and the handle
+    for (gb, gi, g) in all_guards(fn):
+        if g_call("Attributes::is_directory", True, lambda a: found(a[0]))(g):
+            tgt = fn.succ(gb)[gi][0]
+            rs = fn.reach([tgt])
+            late = [(b, var) for (b, i, var, term) in err_returns(fn) if b in rs and var != "TooManyOpenDirs"]
+            late += [(b, "?%s" % (callee_of(t) or "")) for b, t in fn.calls() if b in rs and (callee_of(t) or "").endswith("FromResidual::from_residual")
+                     and not any(x in tstr(fn.call_term(t, b)) for x in ("push(", "TooManyOpenDirs"))]
+            R.require(not late, fn, "directory-entry-opens", "open_dir can still refuse (%s) after the name was found and is a directory: '.', '..' (cluster 0 = root) and every listed sub-directory must open" % sorted({v for _, v in late}), fn.loc(late[0][0]) if late else fn.loc(gb))
+
+
 REFUSALS = {"ReadOnly", "OpenedDirAsFile", "OpenedFileAsDir", "DeleteDirAsFile", "FileAlreadyOpen", "FileAlreadyExists", "DirAlreadyExists",
             "NotFound", "BadHandle", "TooManyOpenDirs", "TooManyOpenFiles", "TooManyOpenVolumes", "FilenameError", "LockError", "InvalidOffset",
             "VolumeStillInUse", "VolumeAlreadyOpen", "NoSuchVolume", "Unsupported"}
@@ -357,6 +369,21 @@ def ls3(F, R):
         ok2, _ = guarded(fn, b, g_call("OnDiskDirEntry::is_end", False))
         R.require(ok1, fn, "del-matches", "0xE5 store reachable without matches()", fn.loc(b, i))
         R.require(ok2, fn, "del-not-end", "0xE5 store reachable past the end marker", fn.loc(b, i))
+    # lookup and delete select a slot by the same test, and by nothing else (a delete marks the very entry the lookup returned)
+    def hit_tests(f, hit_block):
+        out = set()
+        for (gb, gi, g) in all_guards(f):
+            if g.kind == "bool" and g.term[0] == "call" and g.term[1] and f.unreachable_without(hit_block, [(gb, gi)]):
+                out.add((g.term[1].split("::")[-1], g.truth))
+        return out
+    fe = F.fn("FatVolume::find_entry_in_block")
+    de = F.fn("FatVolume::delete_entry_in_block")
+    hits_f = [b for (b, i, v) in ok_returns(fe) if not has_sub(v, lambda q: q[0] == "agg" and q[2] and q[2].endswith("Option::None"))]
+    hits_d = [b for b, i, s_ in stores]
+    if hits_f and hits_d:
+        tf, td = hit_tests(fe, hits_f[0]), hit_tests(de, hits_d[0])
+        want = {("is_end", False), ("matches", True)}
+        R.require(tf == want and td == want, fe, "same-slot-test", "lookup selects a slot under %s, delete under %s; both must be exactly !is_end() && matches(name) - otherwise a delete frees the chain of one entry and marks another" % (sorted(tf), sorted(td)), fe.loc(hits_f[0]))
     # matches(): data[0..11] == sfn.contents
     fn = F.fn("OnDiskDirEntry::matches")
     t = None
@@ -369,6 +396,10 @@ def ls3(F, R):
         s = tstr(t)
         ok = ("0..0xb" in s.replace(" ", "") or "Range{0, 0xb}" in s or "Range{0,0xb}" in s.replace(" ", "")) and "contents" in s and "data" in s
     R.require(ok, fn, "matches-range", "matches() must compare data[0..11] with sfn.contents; got %s" % (tstr(t) if t else None), fn.loc(0))
+    # ... and nothing else: the answer is that comparison (no attribute or other side condition decides whether a name matches)
+    rets = [fn.term_of_rvalue(d[3], d[1]) if d[0] == "assign" else fn.call_term(d[2], d[1]) for d in fn.defs().get(0, [])]
+    sw = [b for b in fn.live_blocks() if fn.term(b)["k"] == "SwitchInt"]
+    R.require(len(rets) == 1 and rets[0][0] == "call" and rets[0][1] and (rets[0][1].endswith("PartialEq::eq") or rets[0][1].endswith("::eq")) and not sw, fn, "matches-only-name", "matches() must be exactly the 11-byte comparison; it also depends on %s" % ("a branch at %s" % fn.loc(sw[0]) if sw else [tstr(r)[:80] for r in rets]), fn.loc(0))
 
 
 # ---------------------------------------------------------------------------------------
